@@ -538,7 +538,7 @@ func init() {
 		},
 		RaceCases: func(tier string) int {
 			if tier == "thorough" {
-				return len(directedKeySets())*2 + p.raceCases
+				return len(directedKeySets())*2 + numBig(tier) + p.raceCases
 			}
 			return 0
 		},
